@@ -259,3 +259,27 @@ def lax_digits(V):
     x = Decimal(V.pick('x', DECIMALS))
     T, Sx = lax_pair(Decimal, k, n)
     lax_check(V, T, Sx, x, k)
+
+
+@ob('staged-union-lax', marks=['accept', 'reject'], budget=(90, 300),
+    bounds='Union of Rule[int](gt=a) (a in -3..3 symbolic) and Rule[str](max_length=Lax(3)) / Rule[str](max_length=3) in either order; '
+           'x = solver int | one of 10 strings (numeric, mixed, long) | bytes | 1.5 | None; flags solver-picked: the stage that '
+           'accepted x must accept its own output unchanged')
+def staged_union_lax(V):
+    a = V.int('a', -3, 3)
+    PI_ = Rule.annotate(int, constraints={'gt': a}, name='IntGt')
+    lax = V.bool('lax_arm')
+    ST = Rule.annotate(str, constraints={'max_length': Lax(3) if lax else 3}, name='Code')
+    from utype.parser.rule import LogicalType
+    T = LogicalType.any_of(PI_, ST) if V.bool('int_first') else LogicalType.any_of(ST, PI_)
+    o = sym_flags(V)
+    k = V.pick('xk', ['int', 'str', 'other'])
+    x = V.int('x', -5, 5) if k == 'int' else V.pick('xs', ['123abc', '12', '123', 'abcd', '5', '-7', '', ' 4 ', '1.5', '0123']) \
+        if k == 'str' else V.pick('xo', [b'12', b'123abc', 1.5, None, True, [1]])
+    r = parse(T, x, o)
+    if r[0] == 'ok':
+        reparse(V, T, o, r[1], 'staged-union-lax', lambda: 'Union(int>%d, str max_length=%s) options=%r input=%r -> %r' % (
+            a, 'Lax(3)' if lax else 3, o, x, r[1]))
+        V.cover('accept')
+    else:
+        V.cover('reject')
